@@ -49,7 +49,7 @@ def corpus_scripts(chk, zoo, paths, copies=3):
         m = next((z for z in zoo if z['name'] == mname), None)
         if m is None:
             continue        # a machine only one check adds to its zoo
-        for i in range(copies):
+        for i in range(sc.get('copies', copies)):     # an entry that depends on a map order more than most asks for more
             s = dict(sc)
             s.update(name='k%s-%d' % (fn[:-5].replace('-', ''), i), machine=paths[mname], _machine=m)
             out.append(s)
